@@ -320,7 +320,7 @@ Definition Go : mode := Mode parser_uniques_numbered_per_type parser_nested_tabl
                              parser_inherited_nested_in_own_package parser_diamond_below_heir_accepted parser_grant_inherited_columns.
 Definition GoBefore : mode := Mode false false false true false false false false false false.
 
-Record pchecks := PChecks { ck_view_pk : bool; ck_grant_class : bool }.
+Record pchecks := PChecks { ck_view_pk : bool; ck_grant_class : bool; ck_func_kinds : bool }.
 
 (* ---- leaf translations (shared by the reference compiler and by the declarative spec) ---- *)
 
@@ -849,6 +849,23 @@ Definition func_ok (p : pkg) (w : ws) (f : func) : bool :=
   && param_ok p w false (fn_result f)
   && (fn_cmd f || match fn_result f with PAny | PDef _ => true | _ => false end).
 
+(* what the analyser checks itself: without `ck_func_kinds` any table in scope passes as a parameter of a
+   command (builder.Build() refuses all but an ODoc: finding C16-F12) *)
+Definition param_ok_p (ck : pchecks) (p : pkg) (w : ws) (allow_table : bool) (x : fparam) : bool :=
+  match x with
+  | PDef q => in_scope p w s_types (resolve (p_name p) q)
+              || (allow_table && (if ck_func_kinds ck then odoc_in_scope p w (resolve (p_name p) q)
+                                  else in_scope p w s_tables (resolve (p_name p) q)))
+  | _ => true
+  end.
+Definition func_ok_p (ck : pchecks) (p : pkg) (w : ws) (f : func) : bool :=
+  param_ok_p ck p w (fn_cmd f) (fn_param f)
+  && (fn_cmd f || negb (match fn_param f with PVoid => true | _ => false end))
+  && (if fn_cmd f then param_ok_p ck p w true (fn_unlogged f) && negb (match fn_unlogged f with PVoid | PAny => true | _ => false end)
+      else is_pnone (fn_unlogged f))
+  && param_ok p w false (fn_result f)
+  && (fn_cmd f || match fn_result f with PAny | PDef _ => true | _ => false end).
+
 Definition trig_ok (p : pkg) (w : ws) (t : trig) : bool :=
   let pn := p_name p in
   match t with
@@ -1034,7 +1051,7 @@ Definition stmt_ok_p (ck : pchecks) (p : pkg) (w : ws) (i : wsitem) : bool :=
   | IType _ ys => yitems_ok p w ys
   | IView v => view_ok_p ck p w v
   | IProj x => proj_ok p w x
-  | IFunc f => func_ok p w f
+  | IFunc f => func_ok_p ck p w f
   | IRole _ _ => true
   | IRate r => rate_ok r
   | ILimit l => limit_ok p w l
